@@ -25,6 +25,19 @@ Theorem C18_scanner_classes :
 Proof.
   intros s l B H x I. split; [eapply (tokenize_no_echo _ clex_covers); eauto|]. eapply tokenize_classes; eauto.
 Qed.
+(* the scanner is flex's: the chosen rule has the longest match at the current position — no rule
+   matches a longer prefix — and it is the first rule among those with a match of that length *)
+Theorem C18_longest_match_first_rule :
+  forall s n a, best_rule clex_rules s = Some (n, a) ->
+  exists pre r post, clex_rules = pre ++ (r, a) :: post /\ longest r s = Some n /\
+    (forall k, k <= length s -> matchb r (firstn k s) = true -> k <= n) /\
+    (forall r' a' m, In (r', a') pre -> longest r' s = Some m -> m < n) /\
+    (forall r' a' m, In (r', a') post -> longest r' s = Some m -> m <= n).
+Proof.
+  intros s n a H. destruct (best_rule_spec _ _ _ _ H) as (pre & r & post & E & L & P1 & P2).
+  exists pre, r, post. split; [exact E|]. split; [exact L|]. split; [apply longest_maximal; exact L|]. split; assumption.
+Qed.
+
 (* the comment action (two nested loops over input()) consumes exactly up to the first "*/" *)
 Theorem C18_comment_action : forall s, eat s = find_close s.
 Proof. exact eat_first_close. Qed.
